@@ -837,7 +837,7 @@ def check_property(root, pid, tier, seed):
     obligations = total_ver + (total_err if not out_of_scope else len([v for v in violations if not v.get("kani")]) + len(known))
     discharged = total_ver
     n_canary_ok = sum(1 for c in canary_report if c["refuted_as_expected"])
-    trusted_base = ["rustc 1.98.1 / Verus 0.2026.09.13 / Z3 (bundled)", "mtx extractor rules R1-R17 (DESIGN.md §2)"] + P.get("assumptions", [])
+    trusted_base = ["rustc 1.98.1 / Verus 0.2026.09.13 / Z3 (bundled)", "mtx extractor rules R1-R18 (DESIGN.md §2)"] + P.get("assumptions", [])
     if kani_report:
         trusted_base.append("Kani 0.68 / CBMC 6.11 (bounded components listed under coverage.kani)")
     ev = {
